@@ -215,6 +215,10 @@ void Simplex::setFrequencies(const std::vector<double>& probas)
   if (fabs(1. - sum) > NumConstants::SMALL())
     throw Exception("Simplex::setFrequencies. Probabilities must equal 1 (sum =" + TextTools::toString(sum) + ").");
 
+  // probas[0 .. dim_-1] are read below
+  if (probas.size() != dim_)
+    throw DimensionException("Simplex::setFrequencies. Wrong number of probabilities.", probas.size(), dim_);
+
   double y = 1;
 
   ParameterList pl;
